@@ -93,7 +93,7 @@ theorem get?_of_mem_keys (m : AMap V) (k : Id) (h : k ∈ keys m) : get? m k ≠
       · exact ih h
 
 /-- `ghostsFor`-style filterMap keyed by the entry's own key -/
-theorem get?_filterMap_key {W : Type} (q : Id → Bool) (w : W) (m : AMap V) (k : Id) :
+theorem get?_filterMap_key {W : Type} (q : Id → Prop) [DecidablePred q] (w : W) (m : AMap V) (k : Id) :
     get? (m.filterMap fun p => if q p.1 then some (p.1, w) else none) k =
       if q k ∧ get? m k ≠ none then some w else none := by
   induction m with
@@ -101,10 +101,16 @@ theorem get?_filterMap_key {W : Type} (q : Id → Bool) (w : W) (m : AMap V) (k 
   | cons p m ih =>
     obtain ⟨a, b⟩ := p
     simp only [List.filterMap_cons]
-    cases hq : q a
-    · simp only [get?, Bool.false_eq_true, if_false] at *
-      rw [ih]; grind
-    · simp only [get?, if_true] at *
-      grind
+    by_cases hq : q a
+    · rw [if_pos hq]
+      simp only [get?]
+      by_cases hk : a = k
+      · subst hk; simp [hq]
+      · simp only [hk, if_false]; exact ih
+    · rw [if_neg hq]
+      simp only [get?]
+      by_cases hk : a = k
+      · subst hk; rw [ih]; simp [hq]
+      · simp only [hk, if_false]; exact ih
 
 end CV.AE.AMap
